@@ -1,6 +1,6 @@
 """C17 - a failing callback leaves the explainer's estimates untouched (symbolic crash index)."""
 from symx import And, Or, Not, Implies, eq, same_term
-from symx.stubs import patched, UFModel, UFLoss, FaultPlan, Boom
+from symx.stubs import patched, UFModel, UFLoss, FaultPlan, Boom, BOOM_TYPES
 from .common import guarded, total, sym_row, names_for
 from .expl import build_incremental, build_storage, LoggingImputer
 
@@ -37,6 +37,8 @@ def configs(tier):
     for cls in ('IncrementalSage', 'IncrementalPFI'):
         for mode in ('static', 'dynamic'):
             add(group='inc', cls=cls, d=1, q=1, m=1, mode=mode, imputer='joint', storage='batch', resume=True, _cost=10)
+            for exc in ('StopIteration', 'KeyError', 'AttributeError', 'ZeroDivisionError', 'ValueError'):
+                add(group='inc', cls=cls, d=2, q=2, m=1, mode=mode, imputer='joint', storage='interval', resume=False, exc=exc, _cost=150)
             add(group='inc', cls=cls, d=1, q=1, m=1, mode=mode, imputer='joint', storage='batch', resume=True, faults=2, _cost=100)
             add(group='inc', cls=cls, d=2, q=1, m=1, mode=mode, imputer='joint', storage='interval', resume=True, faults=2, _cost=900)
             add(group='inc', cls=cls, d=2, q=1, m=2, mode=mode, imputer='joint', storage='batch', resume=True, _cost=400)
@@ -55,6 +57,8 @@ def configs(tier):
     for cls in ('BatchSage', 'IntervalSage'):
         add(group='batch', cls=cls, d=2, n=2, q=1, orig=False, _cost=300)
         add(group='batch', cls=cls, d=1, n=2, q=2, orig=False, _cost=100)
+        for exc in ('StopIteration', 'KeyError', 'ZeroDivisionError'):
+            add(group='batch', cls=cls, d=1, n=2, q=2, orig=False, exc=exc, _cost=100)
         if cls == 'BatchSage':
             add(group='batch', cls=cls, d=2, n=2, q=1, orig=True, _cost=300)
         if tier == 'thorough':
@@ -63,9 +67,10 @@ def configs(tier):
 
 
 def finding_key(cfg, name):
-    # one finding per explainer class and kind of failing callback (model / loss / imputer / storage)
+    # one finding per explainer class, kind of failing callback (model / loss / imputer / storage) and exception type
     kind = name.rsplit(':', 1)[1] if ':' in name else name
-    return f"{cfg['cls']}/estimates_changed_by_failing:{kind}"
+    exc = '' if cfg.get('exc', 'Exception') == 'Exception' else f"[{cfg['exc']}]"
+    return f"{cfg['cls']}/estimates_changed_by_failing:{kind}{exc}"
 
 
 def scenario(env, cfg):
@@ -95,7 +100,7 @@ def _same_dict(env, name, a, b, site):
 def _inc(env, cfg):
     cls = CLASSES[cfg['cls']]
     sage = cls is IncrementalSage
-    plan = FaultPlan(env)
+    plan = FaultPlan(env, exc=cfg.get('exc', 'Exception'))
     b = build_incremental(env, cls, cfg, faults=plan)
     ex, names = b['ex'], b['names']
     if sage:
@@ -105,7 +110,7 @@ def _inc(env, cfg):
     raised = None
     try:
         ex.explain_one(b['x'], b['y'])
-    except Boom as e:
+    except BOOM_TYPES as e:
         raised = e
     except Exception as e:  # noqa: BLE001
         env.fail(f"explain_one:raises:{type(e).__name__}", str(e), detail=str(e)[:200])
@@ -144,7 +149,7 @@ def _inc(env, cfg):
         raised2 = None
         try:
             ex.explain_one(sym_row(env, names, 'x1b'), env.real('y1b'))
-        except Boom as e:
+        except BOOM_TYPES as e:
             raised2 = e
         if plan2.fired_at is not None:
             kind2 = plan2.fired_at[1]
@@ -173,7 +178,7 @@ def _batch(env, cfg):
     cls = CLASSES[cfg['cls']]
     d, n, q = cfg['d'], cfg['n'], cfg['q']
     names = names_for('str', d)
-    plan = FaultPlan(env, enabled=True)
+    plan = FaultPlan(env, enabled=True, exc=cfg.get('exc', 'Exception'))
     plan.fired_at = ('off', 'off')          # armed only for the call under test
     model = UFModel(env, names, faults=plan)
     loss = UFLoss(env, faults=plan)
@@ -203,7 +208,7 @@ def _batch(env, cfg):
         ekw['original_sage'] = True
     try:
         ex.explain_one(x, y, **ekw)
-    except Boom as e:
+    except BOOM_TYPES as e:
         raised = e
     except Exception as e:  # noqa: BLE001
         env.fail(f"explain_one:raises:{type(e).__name__}", str(e), detail=str(e)[:200])
